@@ -908,7 +908,35 @@ def check_native(ctx):
                     refs.add(b.key)
     cg, _ = facts.callgraph()
     referenced = any(w.key in cg.get(b.key, ()) for b in facts.fns() if "python_iface" in b.key and b.span.get("exp"))
-    ctx.check("apply" in names and referenced, "K2.module-export", "the module initialiser registers the wrapper as \"apply\"", "names registered by the initialiser: %s; wrapper referenced: %s" % (sorted(n for n in names if len(n) < 20), referenced), where=w.where(), fn=w.key)
+
+    def reach(roots):
+        seen, st = set(), list(roots)
+        while st:
+            k = st.pop()
+            if k in seen:
+                continue
+            seen.add(k)
+            st.extend(cg.get(k, ()))
+        return seen
+    # wherever the registration is written (in the initialiser's own body or in a function it calls): a call
+    # PyModule::add(m, py, "apply", <callable>) that the initialiser reaches, whose callable — the py_fn! glue nested in
+    # the function that makes the call — reaches the wrapper
+    loose, names = names, set()       # every string constant of the glue (kept for the report only)
+    init_reach = reach([k for k in facts.items if "python_iface" in k and k.endswith("PyInit_jsonlogic")])
+    for b in facts.fns():
+        if b.key not in init_reach:
+            continue
+        for bi, t in b.calls():
+            if callee_path(t) == "cpython::PyModule::add" and len(t["args"]) >= 4:
+                nm = strip_refs(b.trace(t["args"][2]))
+                nm = const_value(nm[1]) if nm[0] == "const" else None
+                if isinstance(nm, str):
+                    glue = reach([k for k in facts.items if k.startswith(b.key + "::") and facts.body(k) is not None and facts.body(k).span.get("exp")])
+                    if nm != "apply" or w.key in glue:
+                        names.add(nm)
+                    else:
+                        names.add("%s (not the wrapper)" % nm)
+    ctx.check("apply" in names and referenced, "K2.module-export", "the module initialiser registers the wrapper as \"apply\"", "names registered by the initialiser (PyModule::add): %s; wrapper referenced by the glue: %s" % (sorted(names), referenced), where=w.where(), fn=w.key)
     inits = [k for k in facts.items if "python_iface" in k and k.endswith("PyInit_jsonlogic")]
     ctx.check(bool(inits), "K2.module-name", "the extension module is initialised as `jsonlogic` (PyInit_jsonlogic)", "no PyInit_jsonlogic symbol", where=w.where())
 
